@@ -343,3 +343,144 @@ def c12_raising(tier, rnd):
                 al.dom[k] = al.dom[k] + [EXC(c)]
             progs.append(program(items, al.dom, fam="C12:%s:%s" % (c, "+".join(sub))))
     return progs
+
+
+# ------------------------------------------------------------------ C04 / C19
+CAUGHT = ["AttributeError", "NameError", "LookupError", "TypeError", "ValueError", "KeyError", "UnicodeError"]
+NOTCAUGHT = ["ZeroDivisionError", "RuntimeError"]
+WRAPS = ["lambda", "lamarg", "listcomp", "genexp", "cond", "dictitem", "setcomp", "paren"]
+
+
+def shapes(al, tier, excs, ok=None):
+    """expression shapes over fresh scripted calls"""
+    ok = ok or [S("a")]
+    d = ok + [EXC(c) for c in excs]
+
+    def c():
+        return al.call("content", d)
+    out = [
+        ("call", lambda: c()),
+        ("pipe2", lambda: pipe(c(), c())),
+        ("pipe3", lambda: pipe(c(), c(), c())),
+        ("pipe4", lambda: pipe(c(), c(), c(), c())),
+        ("not", lambda: not_(c())),
+        ("not-pipe", lambda: not_(pipe(c(), c()))),
+        ("exists", lambda: exists(c())),
+        ("exists-pipe", lambda: exists(pipe(c(), c()))),
+        ("not-exists", lambda: not_(exists(c()))),
+        ("exists-not", lambda: exists(not_(c()))),
+        ("str", lambda: strx(litp(), c(), litp(), c())),
+        ("str-pipe", lambda: strx(litp(), pipe(c(), c()))),
+        ("pipe-not", lambda: pipe(c(), not_(c()))),
+        ("pipe-var", lambda: pipe(var("nope"), c())),
+        ("var-builtin", lambda: pipe(var("len"), c())),
+        ("attr", lambda: attr(al.call("content", [DICT([("a", S("b"))]), DICT([("z", S("b"))]), OBJ("attr"), NONE,
+                                                    SEQ([S("a")])]), "a")),
+        ("attr-pipe", lambda: pipe(attr(al.call("content", [DICT([("z", S("b"))]), OBJ("attr"), SEQ([S("a")])]), "a"), c())),
+    ]
+    for w in WRAPS:
+        out.append(("wrap-" + w, (lambda w=w: wrap(w, c()))))
+        out.append(("wrapvar-" + w, (lambda w=w: pipe(wrap(w, var("x")), c()))))
+    return out
+
+
+SITES = ["define", "cond", "repeat", "switch", "case", "content", "replace", "omit", "attrs", "text", "onerror"]
+
+
+def host(site, e, al):
+    """a small program with expression e at the given site"""
+    pre = Text("pre\n ", pipe(var("x"), const(S("u0"))))
+    post = Text("post", pipe(var("x"), const(S("u0"))))
+    kid = Text("k")
+    if site == "define":
+        el = Open(define=[(False, "x", e)], sattr=["class"])
+        kid = Text("k", pipe(var("x"), const(S("u0"))))
+    elif site == "cond":
+        el = Open(cond=e)
+    elif site == "repeat":
+        el = Open(rep=(False, "x", e))
+        kid = Text("k", pipe(var("x"), const(S("u0"))))
+    elif site == "switch":
+        return [pre, Open(sw=e), Open(cs=al.call("case", [S("a"), S("b"), DEFAULT])), kid, CLOSE, CLOSE, post]
+    elif site == "case":
+        return [pre, Open(sw=al.call("switch", [S("a")])), Open(cs=e), kid, CLOSE, Open(cs=DFLT), Text("d"), CLOSE, CLOSE, post]
+    elif site == "content":
+        el = Open(sub=("content", False, e))
+    elif site == "replace":
+        el = Open(sub=("replace", False, e))
+    elif site == "omit":
+        el = Open(omit=e)
+    elif site == "attrs":
+        el = Open(sattr=["class"], dattr=[("class", e), ("id", al.call("attrs", [S("b")]))])
+    elif site == "text":
+        return [pre, Open(), Text("k", e, "m", al.call("content", [S("b")])), CLOSE, post]
+    elif site == "onerror":
+        return [pre, Open(oe=(False, e)), Text("k", al.call("content", [S("b"), EXC("ZeroDivisionError")])), CLOSE, post]
+    return [pre, el, kid, CLOSE, post]
+
+
+def c04_family(tier, rnd):
+    progs = []
+    excs = ["KeyError", "TypeError", "ZeroDivisionError"] if tier == "quick" else CAUGHT + NOTCAUGHT
+    names = [n for n, _ in shapes(Alloc(tier), tier, excs)]
+    for sname in names:
+        sites = SITES if tier != "quick" else rnd.sample(SITES, 4)
+        if sname.startswith("pipe4") and tier != "quick":
+            ex = ["KeyError", "ZeroDivisionError", "ValueError"]
+        else:
+            ex = excs
+        for site in sites:
+            al = Alloc(tier)
+            okv = [SEQ([S("a"), S("b")])] if site == "repeat" else [S("a")]
+            mk = dict(shapes(al, tier, ex, ok=okv))[sname]
+            al.k = 0
+            al.dom = {}
+            e = mk()
+            if site == "repeat" and sname.split("-")[0] in ("not", "exists", "str"):
+                continue     # these never yield an iterable
+            items = host(site, e, al)
+            progs.append(program(items, al.dom, init={"x": S("c")} if sname.startswith("wrapvar") else {},
+                                 fam="C04:%s@%s" % (sname, site)))
+    return progs
+
+
+def c19_valid(tier, rnd):
+    """valid programs: strict and non-strict must render identically"""
+    progs = c01_f1("quick")
+    if tier == "quick":
+        progs = rnd.sample(progs, 50)
+    return progs
+
+
+def c19_bad(tier, rnd):
+    """invalid expressions planted at reachable and unreachable sites"""
+    progs = []
+    n = 0
+
+    def P(items, al, fam):
+        progs.append(program(items, al.dom, fam="C19:" + fam))
+    for kbad in range(4):
+        b = bad(kbad)
+        for site in SITES:
+            al = Alloc(tier)
+            P(host(site, b, al), al, "reach:%s" % site)
+        # under a false condition / empty repeat / unselected case / after a content that is not default
+        al = Alloc(tier)
+        P([Text("pre"), Open(cond=al.call("cond", [B(False), B(True)])), Text("k", b), CLOSE, Text("post")], al, "under-cond")
+        al = Alloc(tier)
+        P([Text("pre"), Open(rep=(False, "x", al.call("repeat", [SEQ([]), SEQ([S("a")]), NONE]))), Text("k", b), CLOSE, Text("post")], al, "under-repeat")
+        al = Alloc(tier)
+        P([Text("pre"), Open(sw=al.call("switch", [S("a")])), Open(cs=al.call("case", [S("a"), S("b")])), Text("k"), CLOSE,
+           Open(cs=b), Text("n"), CLOSE, CLOSE, Text("post")], al, "later-case")
+        al = Alloc(tier)
+        P([Text("pre"), Open(sub=("content", False, al.call("content", [S("a"), DEFAULT]))), Text("k", b), CLOSE, Text("post")], al, "under-content")
+        al = Alloc(tier)
+        P([Text("pre"), Open(sub=("replace", False, al.call("content", [S("a"), DEFAULT])), dattr=[("id", b)]), Text("k"), CLOSE, Text("post")], al, "attr-under-replace")
+        al = Alloc(tier)
+        P([Text("pre"), Open(oe=(False, b)), Text("k", al.call("content", [S("a"), EXC("KeyError")])), CLOSE, Text("post")], al, "in-fallback")
+        al = Alloc(tier)
+        P([Text("pre"), Open(sub=("content", False, pipe(al.call("content", [S("a"), EXC("KeyError"), EXC("ZeroDivisionError")]), b))),
+           Text("k"), CLOSE, Text("post")], al, "later-pipe-alternative")
+        al = Alloc(tier)
+        P([Text("pre"), Open(cond=b), Text("k", bad(kbad + 1)), CLOSE, Text("post")], al, "two-plants")
+    return progs
